@@ -6,6 +6,7 @@ permutation / single-row metamorphic relation.
 """
 import itertools
 from decimal import InvalidOperation
+import re as _re
 
 import re
 
@@ -29,7 +30,7 @@ ASSUMPTIONS = [
     'inputs on which the definition itself raises (Decimal InvalidOperation, OverflowError) are excluded when model and engine raise alike',
     'ordering of object-typed mixed values and partial functions are not generated',
 ]
-EXCLUDED_BOTH = (InvalidOperation, OverflowError, ZeroDivisionError)
+EXCLUDED_BOTH = (InvalidOperation, OverflowError, ZeroDivisionError, _re.error)      # (an invalid regular expression built from data: undefined)
 
 
 def nontrivial(q, mt):
@@ -88,9 +89,9 @@ def run_case(ctx, q, tables, route, label, mon, check_traces=False):
         if eng_exc is not None and mod_exc is not None and type(eng_exc) is type(mod_exc):
             ctx.count('excluded.definition_raises')
             return
-        if isinstance(eng_exc, EXCLUDED_BOTH):
-            # an arithmetic domain error (decimal context overflow ...) on a row or key the model never needed to
-            # evaluate (the model is lazier than the engine): outside the property, counted
+        if isinstance(eng_exc, EXCLUDED_BOTH) and model.domain_error_possible(q, tables, EXCLUDED_BOTH):
+            # an arithmetic domain error (decimal context overflow ...) on a row or sub-expression the model never needed to
+            # evaluate (the model is lazier than the engine; such an evaluation exists): outside the property, counted
             ctx.count('excluded.engine_arithmetic_domain_error')
             return
         if eng_exc is not None:
